@@ -19,7 +19,7 @@ func init() {
 		Explain: "Decides the structural conditions under which priority alone determines the order: (D) the renderer's dispatch indexes its kind table only under a bounds test and calls the function only when non-nil, otherwise continues the walk; (S) in the parser's and renderer's one-time initialisers every prioritized slice is sorted by a call that dominates the loop consuming it; (C) the sort comparator is ascending on Priority; (R) node renderers are registered in descending slice order into an overwriting table (or ascending into a first-wins table), so the smallest priority value wins; (F) trigger-less block parsers enter the trigger-indexed lists only in a dedicated pass after all block parsers have been added, so they come after the triggered ones, and openBlocks walks the chosen list in ascending index order. Does NOT decide stability among equal priorities (excluded by the statement) or what custom components do.",
 		Trusted: []string{"sort.Slice sorts according to the less function"},
 		Assumes: []string{"distinct priorities (statement)"},
-		Rules:   []func(*World, *Report){ruleTolerantDispatch, ruleSortBeforeBuild, ruleComparator, ruleRegistrationOrder, ruleFreeParsersLast},
+		Rules:   []func(*World, *Report){ruleTolerantDispatch, ruleSortBeforeBuild, ruleComparator, ruleRegistrationOrder, ruleFreeParsersLast, ruleDecliningParserRestored},
 	})
 }
 
